@@ -102,3 +102,233 @@ pub fn keyid_preimages() -> Value {
     }
     json!({"n": n, "bad": bad})
 }
+
+use crate::common::*;
+use in_toto::crypto::{KeyId, PrivateKey, PublicKey, SignatureScheme};
+use in_toto::models::{LayoutMetadata, Metablock, MetadataWrapper};
+use std::collections::HashMap;
+use std::str::FromStr;
+
+fn scheme_of(s: &str) -> SignatureScheme {
+    match s {
+        "ed25519" => SignatureScheme::Ed25519,
+        "ecdsa-sha2-nistp256" => SignatureScheme::EcdsaP256Sha256,
+        "rsassa-pss-sha256" => SignatureScheme::RsaSsaPssSha256,
+        _ => SignatureScheme::RsaSsaPssSha512,
+    }
+}
+
+pub fn standard_spki(typ: &str, material: &[u8]) -> Vec<u8> {
+    match typ {
+        "ed25519" => ed25519_spki(material),
+        "ecdsa" => ecdsa_spki(material),
+        _ => rsa_spki(material),
+    }
+}
+
+fn expected_id(typ: &str, scheme: &str, halgs: bool, material: &[u8]) -> String {
+    let public = match typ {
+        "rsa" => pem_of_spki(&rsa_spki(material)),
+        _ => data_encoding::HEXLOWER.encode(material),
+    };
+    sha256_hex(&olpc_bytes(&reference_description(typ, scheme, halgs, &public)))
+}
+
+/// run one construction path on every fixture key of the type
+pub fn run_path(scn: &Value) -> Value {
+    let typ = scn["typ"].as_str().unwrap();
+    let fams: Vec<&str> = match typ {
+        "ed25519" => vec!["ed25519"],
+        "ecdsa" => vec!["ecdsa"],
+        _ => vec!["rsa2048-256", "rsa4096-256"],
+    };
+    let mut problems = vec![];
+    let mut n = 0;
+    for fam in fams {
+        for idx in 0..keys::family_size(fam) {
+            n += 1;
+            let der = keys::raw_der(fam, idx);
+            let sk = keys::load(fam, idx);
+            let material = sk.public().as_bytes().to_vec();
+            let std_spki = standard_spki(typ, &material);
+            let mut cur: Option<PublicKey> = None;
+            let mut scheme = SignatureScheme::Ed25519;
+            let mut scheme_s = String::new();
+            let mut halgs = true;
+            for (step, op) in scn["path"].as_array().unwrap().iter().enumerate() {
+                let op = op.as_str().unwrap();
+                let r: Result<Result<PublicKey, String>, String> = guarded(|| match op {
+                    "private" => {
+                        scheme_s = type_scheme(fam).1.to_string();
+                        scheme = scheme_of(&scheme_s);
+                        halgs = true;
+                        PrivateKey::from_pkcs8(der, scheme.clone()).map(|k| k.public().clone()).map_err(|e| e.to_string())
+                    }
+                    "raw" => {
+                        scheme_s = type_scheme(fam).1.to_string();
+                        scheme = scheme_of(&scheme_s);
+                        halgs = false;
+                        if typ == "ed25519" {
+                            PublicKey::from_ed25519(material.clone()).map_err(|e| e.to_string())
+                        } else {
+                            PublicKey::from_ecdsa(material.clone()).map_err(|e| e.to_string())
+                        }
+                    }
+                    "raw_halgs" => {
+                        scheme_s = "ed25519".into();
+                        scheme = SignatureScheme::Ed25519;
+                        halgs = true;
+                        PublicKey::from_ed25519_with_keyid_hash_algorithms(material.clone(), Some(vec!["sha256".into(), "sha512".into()]))
+                            .map_err(|e| e.to_string())
+                    }
+                    "spki" | "spki512" | "pem" => {
+                        scheme_s = if op == "spki512" { "rsassa-pss-sha512".to_string() } else { type_scheme(fam).1.to_string() };
+                        scheme = scheme_of(&scheme_s);
+                        halgs = true;
+                        if op == "pem" {
+                            PublicKey::from_pem_spki(&pem_of_spki(&std_spki), scheme.clone()).map_err(|e| e.to_string())
+                        } else {
+                            PublicKey::from_spki(&std_spki, scheme.clone()).map_err(|e| e.to_string())
+                        }
+                    }
+                    "json" => {
+                        let v = serde_json::to_value(cur.as_ref().unwrap()).map_err(|e| e.to_string())?;
+                        serde_json::from_value::<PublicKey>(v).map_err(|e| e.to_string())
+                    }
+                    "jsontext" => {
+                        let t = serde_json::to_string_pretty(cur.as_ref().unwrap()).map_err(|e| e.to_string())?;
+                        serde_json::from_str::<PublicKey>(&t).map_err(|e| e.to_string())
+                    }
+                    "respki" => {
+                        halgs = true;
+                        let der = cur.as_ref().unwrap().as_spki().map_err(|e| e.to_string())?;
+                        PublicKey::from_spki(&der, scheme.clone()).map_err(|e| e.to_string())
+                    }
+                    o => Err(format!("unknown op {o}")),
+                });
+                let k = match r {
+                    Ok(Ok(k)) => k,
+                    Ok(Err(e)) => {
+                        problems.push(json!({"family": fam, "idx": idx, "step": step, "op": op, "error": e}));
+                        break;
+                    }
+                    Err(p) => {
+                        problems.push(json!({"family": fam, "idx": idx, "step": step, "op": op, "panic": p}));
+                        break;
+                    }
+                };
+                let want = expected_id(typ, &scheme_s, halgs, &material);
+                if keys::kid_str(k.key_id()) != want {
+                    problems.push(json!({"family": fam, "idx": idx, "step": step, "op": op, "id": keys::kid_str(k.key_id()), "want": want}));
+                }
+                if k.as_bytes() != material.as_slice() {
+                    problems.push(json!({"family": fam, "idx": idx, "step": step, "op": op, "material_changed": true}));
+                }
+                if matches!(op, "json" | "jsontext") && cur.as_ref() != Some(&k) {
+                    problems.push(json!({"family": fam, "idx": idx, "step": step, "op": op, "json_round_trip_changed_key": true}));
+                }
+                cur = Some(k);
+            }
+            if let Some(k) = &cur {
+                match guarded(|| k.as_spki()) {
+                    Ok(Ok(d)) if d == std_spki => {}
+                    other => problems.push(json!({"family": fam, "idx": idx, "export_differs_from_standard_spki": format!("{:?}", other.map(|r| r.map(|d| data_encoding::HEXLOWER.encode(&d[..d.len().min(24)]))))})),
+                }
+            }
+        }
+    }
+    json!({"out": if problems.is_empty() { "ok" } else { "bad" }, "problems": problems.into_iter().take(4).collect::<Vec<_>>(), "keys": n})
+}
+
+/// key tables with entries filed under their own, another key's, or a foreign id
+pub fn run_table(scn: &Value, family: &str) -> Value {
+    let km = keys::KeyMap::new(family, &["k1", "k2", "k3", "o1"]);
+    let mut problems = vec![];
+    // the keys object, as text, possibly with colliding member names
+    let mut members: Vec<(String, Value)> = vec![];
+    let filed_id = |k: &str, filing: &str| -> Option<String> {
+        match filing {
+            "absent" => None,
+            "own" => Some(km.idstr(k)),
+            "foreign" => Some(sha256_hex(format!("foreign-{k}").as_bytes())),
+            other => Some(km.idstr(other)),
+        }
+    };
+    for k in ["k1", "k2", "k3"] {
+        if let Some(id) = filed_id(k, scn["table"][k].as_str().unwrap()) {
+            members.push((id, serde_json::to_value(km.pk(k)).unwrap()));
+        }
+    }
+    let keys_text = format!("{{{}}}", members.iter().map(|(id, v)| format!("{}:{}", json!(id), v)).collect::<Vec<_>>().join(","));
+    let layout_text = format!(
+        r#"{{"_type":"layout","expires":"2099-01-01T00:00:00Z","readme":"","keys":{},"steps":[{{"_type":"step","name":"s1","threshold":1,"expected_materials":[],"expected_products":[],"pubkeys":[{}],"expected_command":[]}}],"inspect":[]}}"#,
+        keys_text,
+        ["k1", "k2", "k3"].iter().map(|k| json!(km.idstr(k)).to_string()).collect::<Vec<_>>().join(",")
+    );
+    let parsed: Result<LayoutMetadata, _> = serde_json::from_str(&layout_text);
+    let layout = match parsed {
+        Ok(l) => l,
+        Err(e) => return json!({"out": "bad", "problems": [{"layout_does_not_parse": e.to_string()}]}),
+    };
+    for (id, key) in &layout.keys {
+        if key.key_id() != id {
+            problems.push(json!({"table_maps_id_to_other_key": keys::kid_str(id), "key": keys::kid_str(key.key_id())}));
+        }
+    }
+    // keys filed under their own id, whose id no other entry claims, must survive
+    for k in ["k1", "k2", "k3"] {
+        let own = scn["table"][k] == "own";
+        let claimed_by_other = ["k1", "k2", "k3"].iter().any(|o| *o != k && scn["table"][*o] == k);
+        let present = layout.keys.contains_key(&km.id(k));
+        if own && !claimed_by_other && !present {
+            problems.push(json!({"own_entry_dropped": k}));
+        }
+        if !own && !claimed_by_other && present {
+            problems.push(json!({"entry_appeared": k}));
+        }
+    }
+    // end to end: a link for s1 signed by an alias key, labelled with the id it was filed under, must not count
+    let mut e2e = 0;
+    for k in ["k1", "k2", "k3"] {
+        let filing = scn["table"][k].as_str().unwrap();
+        if !["k1", "k2", "k3"].contains(&filing) || scn["table"][filing] != "absent" {
+            continue;
+        }
+        e2e += 1;
+        let tmp = tempfile::tempdir().unwrap();
+        let dir = tmp.path().canonicalize().unwrap();
+        let link = simple_link("s1");
+        let mb = Metablock::new(link, &[km.sk(k)]).unwrap();
+        let relabelled = Metablock {
+            signatures: vec![keys::make_sig(&km.idstr(filing), mb.signatures[0].value().as_bytes())],
+            metadata: mb.metadata.clone(),
+        };
+        std::fs::write(dir.join(format!("s1.{}.link", &km.idstr(filing)[0..8])), serde_json::to_string(&relabelled).unwrap()).unwrap();
+        let signed_layout = Metablock::new(MetadataWrapper::Layout(layout.clone()), &[km.sk("o1")]).unwrap();
+        let mut val = serde_json::to_value(&signed_layout).unwrap();
+        val["signed"] = serde_json::from_str(&layout_text).unwrap();
+        let shipped: Result<Metablock, _> = serde_json::from_value(val);
+        let shipped = match shipped {
+            Ok(s) => s,
+            Err(_) => match serde_json::from_str::<Metablock>(&format!(
+                r#"{{"signatures":{},"signed":{}}}"#,
+                serde_json::to_string(&signed_layout.signatures).unwrap(),
+                layout_text
+            )) {
+                Ok(s) => s,
+                Err(e) => {
+                    problems.push(json!({"shipped_layout_does_not_parse": e.to_string()}));
+                    continue;
+                }
+            },
+        };
+        let mut ck: HashMap<KeyId, PublicKey> = HashMap::new();
+        ck.insert(km.id("o1"), km.pk("o1").clone());
+        let r = guarded(|| in_toto::verifylib::in_toto_verify(&shipped, ck, dir.to_str().unwrap(), None));
+        if outcome(&r) != "err" {
+            problems.push(json!({"aliased_key_counted": k, "filed_under": filing, "verdict": outcome(&r)}));
+        }
+    }
+    let _ = KeyId::from_str;
+    json!({"out": if problems.is_empty() { "ok" } else { "bad" }, "problems": problems, "e2e": e2e})
+}
